@@ -112,6 +112,9 @@ def dfstep (pre : Nat → Nat) (d : DServer) : FOp → DServer
   | .disconnect c => dAbortAll d (widsOfConn d.srv c)
   | .direct (.read _ _ _) => d
   | .direct (.list _) => d
+  | .restart =>           -- `fileutil.rm_dir(incomingdir)` then `make_dirs(incomingdir)`
+    { srv := restartOp d.srv,
+      dirs := d.dirs.filter (fun x => match x with | .incDir _ => false | .incPrefix _ => false | _ => true) }
 
 def dfrun (pre : Nat → Nat) (d : DServer) (ops : List FOp) : DServer := ops.foldl (dfstep pre) d
 
